@@ -82,6 +82,18 @@ def run_case(scn, desc, res, nontrivial=True):
     """Runs implementation and model, records the case and any disagreement.
     Returns (impl, model, agreed)."""
     i, m, agreed = scen.run_both(scn)
+    honest = m.get("honest") if isinstance(m, dict) else None
+    if honest is not None and isinstance(i, dict) and i.get("load") == "ok":
+        # the hypotheses of `honest_chain_verifies` hold on this world (every step carried out by enough of its authorised
+        # functionaries, no other file in the way, rules and inspections pass): the theorem says what verification
+        # returns - it must be what the implementation returns (thresholds above one, several functionaries, key bundles
+        # with subkeys included)
+        res.count("honest_theorem_applies")
+        res.evaluations += 1
+        if honest.get("result") != i.get("result"):
+            res.fail("disagree", replayable(scn, dict(desc, honest_theorem=True)),
+                     {"op": "honest_check", "why": "prediction of honest_chain_verifies differs from the implementation",
+                      "impl": short(i), "predicted": honest.get("result")})
     res.case({"desc": desc, "impl": short(i), "model": short(m)}, nontrivial, agreed)
     res.count("impl_" + ("accept" if accepted(i) else (i["result"]["err"] if i.get("load") == "ok" else "load_error")))
     if not agreed:
